@@ -205,6 +205,7 @@ func runOne(c *core.Ctx, cs *Case) *Result {
 	}
 	if res.TimedOut {
 		c.Inconclusive("watchdog:" + cs.Kind)
+		c.Extra("watchdog_"+cs.Name, map[string]any{"spec": cs, "last_log": string(res.LastLog()), "goroutines_tail": core.Trunc(res.Stderr, 30000)})
 		return nil
 	}
 	if res.Crashed() {
